@@ -226,7 +226,74 @@ def r11_6(ctx):
            "tendril futf.rs decode")
 
 
+def _py_expr(e, names):
+    """translate a pure integer expression of the syntax tree to a Python expression over `names`; None when it is not one"""
+    k = e.get("k")
+    if k == "Paren":
+        return _py_expr(e["e"], names)
+    if k == "Lit" and e.get("t") == "int":
+        return str(int(e["v"]))
+    if k == "Path" and e["path"] in names:
+        return e["path"]
+    if k == "Cast":
+        inner = _py_expr(e["e"], names)
+        bits = {"u8": 8, "u16": 16, "u32": 32, "u64": 64, "usize": 64}.get(e["ty"].replace(" ", ""))
+        return None if inner is None or bits is None else "((%s) & %d)" % (inner, (1 << bits) - 1)
+    if k == "Binary" and e["op"] in ("+", "-", "|", "&", "^", "<<", ">>", "*"):
+        l, r = _py_expr(e["l"], names), _py_expr(e["r"], names)
+        return None if l is None or r is None else "((%s) %s (%s))" % (l, e["op"], r)
+    return None
+
+
+def r11_7(ctx):
+    """WTF-8 surrogate joining (WTF8::fixup): the code point built from a lead surrogate's payload hi and a trail surrogate's payload
+    lo (10 bits each, from futf) is 0x10000 + (hi << 10) + lo - the expression is taken from the syntax tree and its table over all
+    1024 x 1024 pairs is compared (a finite domain, evaluated completely; nothing of the crate is run)"""
+    from lib.ast import walk
+    its = [it for it in ctx.ast.walkable("tendril") if it["k"] == "Fn" and it["name"] == "fixup" and "WTF8" in (it.get("self_ty") or "") and it.get("body") is not None]
+    if len(its) != 1:
+        raise AnchorMissing("WTF8::fixup")
+    pats = {}
+
+    def pf(n):
+        if n.get("k") == "PTupleStruct" and n["path"].split("::")[-1] in ("LeadSurrogate", "TrailSurrogate") and len(n["elems"]) == 1 and n["elems"][0].get("k") == "PIdent":
+            pats[n["path"].split("::")[-1]] = n["elems"][0]["name"]
+    walk(its[0]["body"], pf)
+    if set(pats) != {"LeadSurrogate", "TrailSurrogate"}:
+        raise AnchorMissing("WTF8::fixup: the lead / trail surrogate payloads are not bound by patterns")
+    hi, lo = pats["LeadSurrogate"], pats["TrailSurrogate"]
+    cands = []
+
+    def lf(n):
+        if n.get("k") == "Let" and n.get("init") is not None:
+            used = set()
+            walk(n["init"], lambda m: used.add(m["path"]) if m.get("k") == "Path" and m["path"] in (hi, lo) else None)
+            if used == {hi, lo}:
+                py = _py_expr(n["init"], {hi, lo})
+                if py is not None:
+                    cands.append(py)
+    walk(its[0]["body"], lf)
+    if len(cands) != 1:
+        raise AnchorMissing("WTF8::fixup: %d integer expressions over both surrogate payloads" % len(cands))
+    fn = eval("lambda %s, %s: %s" % (hi, lo, cands[0]), {"__builtins__": {}})
+    bad = None
+    for h in range(1024):
+        base = 0x10000 + (h << 10)
+        for l in range(1024):
+            if fn(h, l) != base + l:
+                bad = (h, l, fn(h, l))
+                break
+        if bad:
+            break
+    ctx.ob("R11.7", "wtf8-surrogate-pair-joins-to-its-code-point", bad is None,
+           "0x10000 + (hi << 10) + lo for all 1 048 576 payload pairs" if bad is None else
+           "lead payload 0x%X, trail payload 0x%X join to U+%X, the pair encodes U+%X: text pushed in two pieces differs from the same text pushed at once" % (bad[0], bad[1], bad[2], 0x10000 + (bad[0] << 10) + bad[1]),
+           "tendril fmt WTF8::fixup")
+
+
 def run(ctx):
+    ctx.rule("R11.7", "WTF8::fixup joins a surrogate pair to 0x10000 + (hi << 10) + lo (complete table over the 2^20 payload pairs)")
+    ctx.guard("R11.7", "join", lambda: r11_7(ctx))
     ctx.rule("R11.6", "futf: byte classes over all 256 values and the decode thresholds are UTF-8's")
     ctx.guard("R11.6", "futf", lambda: r11_6(ctx))
     ctx.rule("R11.1", "every write into heap storage is preceded by make_owned* (or targets a buffer created in the same function)")
